@@ -157,7 +157,7 @@ func (h histSpec) String() string {
 
 func main() {
 	run := report.New("C08", "fault_enumeration")
-	run.Rule("history = 2..4 reader clients doing lookups of version-identifying probe serials (common, never, unique-per-version) concurrently with one refresher that steps through a sequence of refresh outcomes {ok, http500, garbage, bad signature, unknown signer, temporary-store creation error, insert error at step 1/mid/last} (all sequences of length <=2, sampled length 3; refused / truncated download sampled; thorough: length <=3 exhaustive + length 4 sampled) on both backends, with seeded yields at the swap/lookup hook points; every call and return is stamped at the client boundary; oracle = linearizability of the history w.r.t. a single register holding the version in force (refresh ok => target, refresh err => unchanged, outcome not returned => either; lookup legal iff it matches the register), checked by porcupine; a lookup returning an error is reported separately; non-trivial = history in which at least one lookup overlapped a refresh call; distinct = history descriptor")
+	run.Rule("history = 2..4 reader clients doing lookups of version-identifying probe serials (common, never, unique-per-version) concurrently with one refresher that steps through a sequence of refresh outcomes {ok, http500, garbage, bad signature, unknown signer, temporary-store creation error, insert error at step 1/mid/last} (all sequences of length <=2, sampled length 3; refused / truncated download sampled; thorough: length <=3 exhaustive + lengths 4..6 sampled, every history under six schedules) on both backends, with seeded yields at the swap/lookup hook points; every call and return is stamped at the client boundary; oracle = linearizability of the history w.r.t. a single register holding the version in force (refresh ok => target, refresh err => unchanged, outcome not returned => either; lookup legal iff it matches the register), checked by porcupine; a lookup returning an error is reported separately; non-trivial = history in which at least one lookup overlapped a refresh call; distinct = history descriptor")
 	run.Assume("one location, so no partitioning; histories <= 450 operations, checker timeout 60 s => Unknown is inconclusive", "monotonic stamps from one clock in the harness process")
 	scratch, _ := report.Scratch("C08")
 	sut.QuietStderr(filepath.Join(scratch, "stderr.log"))
@@ -198,6 +198,29 @@ func main() {
 			for _, sf := range slowFaults {
 				specs = append(specs, histSpec{Backend: b, Steps: []string{sf, "ok"}, Readers: 3, Seed: rng.Int63()})
 			}
+		}
+	}
+	if run.Thorough() {
+		// every fast history five more times under other reader counts and yield schedules, and
+		// sampled histories of length 5 and 6
+		base := len(specs)
+		for r := 0; r < 5; r++ {
+			for _, sp := range specs[:base] {
+				if len(sp.Steps) == 2 && (sp.Steps[0] == "refused" || sp.Steps[0] == "truncated-download") {
+					continue
+				}
+				sp.Readers = 2 + rng.Intn(3)
+				sp.Seed = rng.Int63()
+				sp.Unknown = rng.Intn(4) == 0
+				specs = append(specs, sp)
+			}
+		}
+		for i := 0; i < 600; i++ {
+			var st []string
+			for j := 0; j < 5+i%2; j++ {
+				st = append(st, faults[rng.Intn(9)])
+			}
+			specs = append(specs, histSpec{Backend: []string{"memory", "disk"}[i%2], Steps: st, Readers: 2 + rng.Intn(3), Seed: rng.Int63(), Unknown: rng.Intn(4) == 0})
 		}
 	}
 	si, sn, isShard := report.Shard()
